@@ -34,6 +34,9 @@ pub struct C15Plan {
     /// at the end of each picture whoever decodes the next one.
     #[serde(default)]
     pub assign: Vec<u8>,
+    /// Short-read knob for the stream's source (0 = unlimited).
+    #[serde(default)]
+    pub max_chunk: usize,
 }
 
 fn viol(class: &str, detail: String) -> Option<Violation> {
@@ -49,6 +52,9 @@ pub fn exec_c15(plan: &C15Plan, st: &mut Stats) -> Option<Violation> {
         ends.push(concat.len());
     }
     let mut a = Slot::new(plan.opts);
+    if plan.max_chunk > 0 {
+        a.set_max_chunk(plan.max_chunk);
+    }
     let mut a2 = h263_rs::H263State::new(opts_from_bits(plan.opts));
     let mut b = Slot::new(plan.opts);
     let mut b2 = Slot::new(plan.opts);
@@ -253,6 +259,7 @@ pub fn gen_c15(rng: &mut Rng, tier: Tier) -> C15Plan {
         eintr,
         extra_calls: 1 + rng.usize(2),
         assign,
+        max_chunk: *rng.pick(&[0usize, 0, 0, 1, 2, 5]),
     }
 }
 
